@@ -1,5 +1,6 @@
-import LanceModel.C16.ReadLemmas
+import LanceModel.C16.IndexLemmas
 import LanceModel.C16.SortLemmas
+import LanceModel.C16.ProjLemmas
 /-
 C16 — "For any filter, projection, limit/offset and ordering, a scan returns exactly the rows a reference SQL evaluation of
 the same query over the model table returns (three-valued logic, literal coercion as the column type dictates).  The result
@@ -127,6 +128,19 @@ def indexed_limit_full : Prop :=
         { full := some (.and atom refine), index := some { atom := atom, refine := some refine } }).flatten
       = ((readSpec frags none (some (.and atom refine))).drop a.1).take (a.2 - a.1)
 
+/-- the sound part (`_partial`): when the exact index answers the whole filter — no refine filter remains — the skip/take
+    push-down across fragments (or, when the matches run out before the window is full, soft limit + hard range) returns
+    exactly rows `a.start .. a.end` of the matching rows, for all layouts, deletion vectors, batch sizes and ranges -/
+theorem indexed_limit_partial (frags : List Frag) (hwf : ∀ f ∈ frags, f.wf) (hnd : (frags.map (·.id)).Nodup)
+    (bs : Nat) (hbs : 1 ≤ bs) (a : Rg) (atom : Expr) :
+    (filteredRead frags bs none (some a) { full := some atom, index := some { atom := atom, refine := none } }).flatten
+      = ((readSpec frags none (some atom)).drop a.1).take (a.2 - a.1) :=
+  filteredRead_index_norefine frags hwf hnd bs hbs a atom
+
+example : (filteredRead exFrags 2 none (some (1, 3))
+    { full := some (.cmp .ge 0 (.lit 1)), index := some { atom := .cmp .ge 0 (.lit 1), refine := none } }).flatten
+    = [(0, 2), (1, 0)] := by decide
+
 /-- the code pushes the window into the index-matched ranges and applies the refine filter afterwards: rows the refine
     filter drops are counted against the limit.  Witness: `c0 >= 0 AND c1 > 4 LIMIT 1` finds nothing although two rows match. -/
 theorem indexed_limit_counterexample : ¬ indexed_limit_full := by
@@ -196,6 +210,15 @@ theorem projection_commutes (t : List Frag) (q : Query) :
     scan t q = (scan t { q with proj := none }).map (project q.proj) := by
   simp only [scan, List.map_map]
   congr 1
+
+/-- the filter may be evaluated on the narrow batch that holds only the columns read (projection ∪ filter columns, as
+    `read_fragment` does): re-indexed to those columns it gives the same three-valued answer as on the full row -/
+theorem filter_on_read_columns (r : Row) (cols : List Nat) (e : Expr) (h : colsIn cols e = true) :
+    eval3 (remap cols e) (project (some cols) r) = eval3 e r :=
+  eval3_narrow r cols e h
+
+example : eval3 (remap [2, 0] (.cmp .lt 0 (.col 2))) (project (some [2, 0]) [some 1, some 9, some 5]) = some true := by
+  decide
 
 /-- WHERE keeps exactly the rows on which the predicate is TRUE — not FALSE, not NULL (three-valued logic): a row is in
     the un-windowed answer iff it is the projection of a live row with `eval3 = some true` -/
